@@ -527,6 +527,17 @@ class sptenmat:
         if csubs.shape == ():
             csubs = np.array([csubs])
 
+        # negative subscripts count from the end; a sptenmat cannot be resized
+        rsubs = np.where(rsubs < 0, rsubs + self.shape[0], rsubs)
+        csubs = np.where(csubs < 0, csubs + self.shape[1], csubs)
+        if (
+            (rsubs < 0).any()
+            or (rsubs >= self.shape[0]).any()
+            or (csubs < 0).any()
+            or (csubs >= self.shape[1]).any()
+        ):
+            raise IndexError("Subscript out of range for sptenmat assignment")
+
         if isinstance(value, (int, float, np.floating)):
             value = value * np.ones((len(csubs) * len(rsubs), 1))
         value = np.asarray(value)
